@@ -53,6 +53,8 @@ def _guarded_not_absent(cfg: CFG, nodes: list[int], expr: ast.AST, extra: list[t
 
 
 def check_empty_block_header(run: Run) -> None:
+    run.rule("R18.9", "an Absent element is skipped alone: inside every loop of the emitter, the branch taken for an Absent value (is_absent(..) / isinstance(.., Absent)) neither returns, breaks nor raises - leaving the loop there would drop every sibling after the absent one", 3)
+    _absent_skips_one(run)
     run.rule("R18.8", "present-but-empty is not absent: in the META emitter the `KEY:` header of a nested block is appended unconditionally as soon as the value is a dict (it does not depend on whether any nested field produced a line)", 1)
     em = run.project.mod("core.emitter")
     cands = [f for q, f in em.functions.items() if q in ("emit_meta", "_emit_meta_fields")]
@@ -479,6 +481,46 @@ def check_normalize(run: Run, rule: str) -> None:
     for n in scalar_tests + none_tests:
         run.violation(rule, wm, nf.qualname, n, "_normalize_value_for_ast special-cases a scalar kind or None: scalars and null must pass through unchanged")
 
+
+
+def _absent_skips_one(run: Run) -> None:
+    em = run.project.mod("core.emitter")
+    n = 0
+
+    def absent_test(t: ast.AST) -> bool:
+        # the test itself (or its negation, or a conjunct / disjunct of it) asks whether the element is Absent - not a predicate
+        # over other values (`any(not is_absent(v) for v in ...)`)
+        if isinstance(t, ast.UnaryOp) and isinstance(t.op, ast.Not):
+            return absent_test(t.operand)
+        if isinstance(t, ast.BoolOp):
+            return any(absent_test(v) for v in t.values)
+        return (isinstance(t, ast.Call) and isinstance(t.func, ast.Name) and t.func.id == "is_absent") or (isinstance(t, ast.Call) and isinstance(t.func, ast.Name) and t.func.id == "isinstance" and len(t.args) == 2 and "Absent" in ast.unparse(t.args[1]))
+
+    def leaves(stmts: list[ast.stmt]) -> ast.stmt | None:
+        """a return / break / raise executed when the branch is taken (not one nested under a further condition or loop)"""
+        for st in stmts:
+            if isinstance(st, (ast.Return, ast.Break, ast.Raise)):
+                return st
+            if isinstance(st, ast.Continue):
+                return None
+        return None
+
+    for fi in em.functions.values():
+        for loop in [x for x in walk_no_nested(fi.node) if isinstance(x, (ast.For, ast.While))]:
+            for t in [x for b in loop.body for x in ast.walk(b) if isinstance(x, ast.If)]:
+                # only tests that are about the loop's own element, and not inside a nested loop of their own
+                inner = any(t in list(ast.walk(l2)) for b in loop.body for l2 in ast.walk(b) if isinstance(l2, (ast.For, ast.While)))
+                if inner or not absent_test(t.test):
+                    continue
+                neg = isinstance(t.test, ast.UnaryOp) and isinstance(t.test.op, ast.Not)
+                branch = t.orelse if neg else t.body
+                bad = leaves(branch)
+                n += 1
+                run.instance("R18.9", em.loc(t), f"{fi.qualname}: the Absent branch of `{norm(t.test)[:60]}` skips this element only", ok=bad is None)
+                if bad is not None:
+                    run.violation("R18.9", em, fi.qualname, t.test, f"inside the loop of {fi.qualname} the branch for an Absent value leaves the loop (`{norm(bad)[:40]}`): every sibling after an absent field is dropped from the output although no change named it", line=t.lineno)
+    if n < 3:
+        raise AnalysisError(f"emitter.py: only {n} Absent test(s) inside loops found")
 
 
 def check_quote_str_only(run: Run, rule: str) -> None:
